@@ -42,7 +42,7 @@ from vgi_rpc.http.server import _state_token as st
 
 PROPERTY = "C12"
 LEVEL = "fault_enumeration"
-QUICK_RUNS = 192
+QUICK_RUNS = 128
 THOROUGH_RUNS = 6000
 QUICK_BUDGET_S = 100
 THOROUGH_BUDGET_S = 1500
